@@ -554,6 +554,57 @@ def _items_iteration(it: ast.AST):
     return None
 
 
+def _beta_reduce(ctx, f, e: ast.AST) -> ast.AST:
+    """`fn(args)` where the local `fn` is bound once to a lambda: the lambda's body with its parameters replaced by the ORIGINAL
+    argument nodes (all other nodes of the body stay the original ones, so def-use queries keep working)."""
+    import copy
+    if not (isinstance(e, ast.Call) and isinstance(e.func, ast.Name) and not e.keywords
+            and not any(isinstance(a, ast.Starred) for a in e.args)):
+        return e
+    lam = resolve_local(ctx, f, e.func)
+    if not isinstance(lam, ast.Lambda):
+        return e
+    a = lam.args
+    params = [x.arg for x in a.posonlyargs + a.args]
+    if a.vararg or a.kwarg or a.kwonlyargs or len(params) != len(e.args):
+        return e
+    binding = dict(zip(params, e.args))
+
+    def S(n):
+        if isinstance(n, ast.Name) and isinstance(n.ctx, ast.Load) and n.id in binding:
+            return binding[n.id]
+        if isinstance(n, ast.Lambda) or not isinstance(n, ast.AST):
+            return n
+        kids = [(fld, val) for fld, val in ast.iter_fields(n) if isinstance(val, (ast.AST, list))]
+        new_vals = {}
+        changed = False
+        for fld, val in kids:
+            nv = [S(x) if isinstance(x, ast.AST) else x for x in val] if isinstance(val, list) else S(val)
+            if (isinstance(val, list) and any(x is not y for x, y in zip(nv, val))) or (not isinstance(val, list) and nv is not val):
+                changed = True
+            new_vals[fld] = nv
+        if not changed:
+            return n
+        new = copy.copy(n)
+        for fld, nv in new_vals.items():
+            setattr(new, fld, nv)
+        return new
+    return S(lam.body)
+
+
+def _flows_from(ctx, f, name: ast.Name, stmt, depth: int = 5) -> bool:
+    """Some definition that reaches this use of a local is `stmt`, directly or through plain re-bindings `a = b`."""
+    if depth <= 0 or comp_generator_of(name) is not None:
+        return False
+    for d in ctx.rd(f).defs_reaching(name):
+        if d is stmt:
+            return True
+        v = assigned_value(d, name.id)
+        if isinstance(v, ast.Name) and _flows_from(ctx, f, v, stmt, depth - 1):
+            return True
+    return False
+
+
 def r3_time_grid(ctx, rid):
     g = ctx.repo.get_func(REL, "create_input_node")
     ctx.require(len(g.params) >= 4, f"{rid}: create_input_node signature changed: {g.params}")
@@ -781,39 +832,75 @@ def r3_time_grid(ctx, rid):
 
     # ---- _add_input forwards flag, time span and array to the matching parameters
     f = ctx.repo.get_func(REL, f"{CLS}._add_input")
-    cc = _calls(f, "create_input_node")
+    # helpers of _add_input (shape canonicalisation, ...) are spliced in for the analysis; obligations are reported on f
+    fa = inlined(ctx, f, keep=("create_input_node", "_add_input_node", "get_nodes", "update_template"))
+    cc = _calls(fa, "create_input_node")
     ctx.require(len(cc) == 1, f"{rid}: expected one create_input_node call in _add_input")
     bound = _bind_args(cc[0], g.params)
     fp = f.params            # self, target, inp, adaptive, sim_time, vectorized_net
     ctx.require(len(fp) >= 5, f"{rid}: _add_input signature changed: {fp}")
     f_inp, f_flag, f_T = fp[2], fp[3], fp[4]
+    _CANON = ("asarray", "array", "squeeze", "ascontiguousarray", "asanyarray", "atleast_1d")
 
-    def canon_array(e) -> bool:
-        if not isinstance(e, ast.Name) or e.id != f_inp:
+    def canon_array(e, seen=None, depth=8):
+        """True: e is _add_input's array parameter, at most passed through shape/typing canonicalisations (asarray, squeeze) on
+        every path; False: something else provably (another parameter, arithmetic, slicing); None: cannot tell."""
+        seen = set() if seen is None else seen
+        if depth <= 0:
+            return None
+        if isinstance(e, ast.Name):
+            if comp_generator_of(e) is not None:
+                return None
+            defs = ctx.rd(fa).defs_reaching(e)
+            if not defs:
+                return None
+            verdict = True
+            for d in defs:
+                if isinstance(d, ast.arguments):
+                    if e.id != f_inp:
+                        return False
+                    continue
+                if (id(d), e.id) in seen:
+                    continue
+                seen.add((id(d), e.id))
+                v = assigned_value(d, e.id)
+                r = canon_array(v, seen, depth - 1) if v is not None else None
+                if r is False:
+                    return False
+                if r is None:
+                    verdict = None
+            return verdict
+        if isinstance(e, ast.IfExp):
+            a_, b_ = canon_array(e.body, seen, depth - 1), canon_array(e.orelse, seen, depth - 1)
+            return False if (a_ is False or b_ is False) else (True if (a_ and b_) else None)
+        if isinstance(e, ast.Call) and call_name(e) in _CANON and isinstance(e.func, ast.Attribute):
+            recv = e.func.value
+            if isinstance(recv, ast.Name) and recv.id in ("np", "numpy"):
+                return canon_array(e.args[0], seen, depth - 1) if e.args else None
+            return canon_array(recv, seen, depth - 1)
+        if isinstance(e, ast.Call):
+            return None
+        if isinstance(e, (ast.BinOp, ast.Subscript, ast.UnaryOp, ast.Constant, ast.List, ast.Tuple)):
             return False
-        for d in ctx.rd(f).defs_reaching(e):
-            if isinstance(d, ast.arguments):
-                continue
-            v = assigned_value(d, e.id)
-            if isinstance(v, ast.Call) and call_name(v) in ("asarray", "array", "squeeze", "ascontiguousarray") and \
-                    {n.id for n in ast.walk(v) if isinstance(n, ast.Name)} <= {f_inp, "np", "numpy"}:
-                continue
-            return False
-        return True
+        return None
     var_arg = bound.get(p_var)
     var_ok = False
     if isinstance(var_arg, ast.Name):
-        ds = ctx.rd(f).defs_reaching(var_arg)
+        ds = ctx.rd(fa).defs_reaching(var_arg)
         if len(ds) == 1 and isinstance(ds[0], ast.Assign) and isinstance(ds[0].targets[0], ast.Tuple) and isinstance(ds[0].value, ast.Call) \
                 and call_name(ds[0].value) == "split" and isinstance(ds[0].value.func.value, ast.Name) \
-                and _unmodified_param(ctx, f, ds[0].value.func.value, fp[1]):
+                and _unmodified_param(ctx, fa, ds[0].value.func.value, fp[1]):
             var_ok = position_in_target(ds[0].targets[0], var_arg.id) == len(ds[0].targets[0].elts) - 1
+    array_ok = canon_array(bound[p_inp]) if p_inp in bound else False
+    if array_ok is None:
+        raise AnalysisError(f"{rid}: cannot tell whether `{norm(bound[p_inp])}` handed to create_input_node is _add_input's array "
+                            f"(unrecognised form of the shape canonicalisation)")
     checks = {
-        "time span": (p_T in bound and _unmodified_param(ctx, f, bound[p_T], f_T),
+        "time span": (p_T in bound and _unmodified_param(ctx, fa, bound[p_T], f_T),
                       f"`{p_T}` must receive _add_input's `{f_T}`: the grid would span another interval than the simulation"),
-        "adaptive flag": (p_cont in bound and _unmodified_param(ctx, f, bound[p_cont], f_flag),
+        "adaptive flag": (p_cont in bound and _unmodified_param(ctx, fa, bound[p_cont], f_flag),
                           f"`{p_cont}` must receive _add_input's `{f_flag}`: interpolation would be chosen independently of the solver"),
-        "array": (p_inp in bound and canon_array(bound[p_inp]),
+        "array": (array_ok is True,
                   f"`{p_inp}` must receive the (shape-canonicalised) input array"),
         "variable name": (var_ok, f"`{p_var}` must receive the last component of the addressed path"),
     }
@@ -893,7 +980,7 @@ def r3_time_grid(ctx, rid):
         # T
         run_fn, irun = find("run", "simulation_time")
         T = b[f_T]
-        Tr = resolve_local(ctx, host, T)
+        Tr = _beta_reduce(ctx, host, resolve_local(ctx, host, T))
         if irun is not None:
             want = {k.arg: k.value for k in irun.keywords}["simulation_time"]
             good = same(Tr, run_fn, want) and entry_param(Tr)
@@ -941,8 +1028,7 @@ def r3_time_grid(ctx, rid):
             and isinstance(call_st.targets[0], ast.Name) and isinstance(call.func, ast.Attribute) and isinstance(call.func.value, ast.Name) \
             and call.func.value.id == call_st.targets[0].id
         if ap_fn is host:
-            chain_ok = rebinds and isinstance(recv, ast.Name) and recv.id == call_st.targets[0].id \
-                and any(d is call_st for d in ctx.rd(host).defs_reaching(recv))
+            chain_ok = rebinds and isinstance(recv, ast.Name) and _flows_from(ctx, host, recv, call_st)
         else:
             # apply() is called by the public method on what the helper returned
             ctx.require(len(chain) == 1, f"{rid}: _add_input and apply() are {len(chain)} call levels apart (unrecognised form)")
